@@ -49,11 +49,20 @@ theorem mem_pySlice_of_idx {α : Type} {l : List α} {a e j : Nat} {x : α} (h1 
     rw [List.getElem?_drop, List.getElem?_take, if_pos (by omega), show a + (j - a) = j by omega]; exact hx
   exact List.mem_of_getElem? this
 
+theorem ilOK_of_mem {ks : List Node} {x : Node} (hx : x ∈ ks) (hw : x.isWhitespace = false) (hc : isComma x = false) :
+    ilOK ks = true :=
+  List.any_eq_true.2 ⟨x, hx, by simp [hw, hc]⟩
+
+theorem ilOK_append_left {a : List Node} (b : List Node) (h : ilOK a = true) : ilOK (a ++ b) = true := by
+  simp only [ilOK, List.any_append, Bool.or_eq_true] at h ⊢
+  exact Or.inl h
+
 /-- a `group_tokens` call with a plain class keeps the invariant of the children -/
 theorem groupTokens'_listInv {ph : Ph} {ks : List Node} {cls : Cls} {a b : Nat} {ext : Bool} {r : List Node × Node}
     (h : groupTokens' ks cls a b true ext = .ok r) (hp : plainCls cls = true)
-    (hw : ∃ j x, a ≤ j ∧ j ≤ b ∧ ks[j]? = some x ∧ x.isWhitespace = false) (hi : ListInv u ph ks) :
-    ListInv u ph r.1 := by
+    (hw : ∃ j x, a ≤ j ∧ j ≤ b ∧ ks[j]? = some x ∧ x.isWhitespace = false)
+    (hil : cls = .IdentifierList → ∃ j x, a ≤ j ∧ j ≤ b ∧ ks[j]? = some x ∧ x.isWhitespace = false ∧ isComma x = false)
+    (hi : ListInv u ph ks) : ListInv u ph r.1 := by
   have hc := groupTokens'_cases h
   simp only [↓reduceIte] at hc
   rcases hc with ⟨c, kids, _, hst, hinst, rfl⟩ | ⟨_, _, rfl⟩
@@ -64,12 +73,15 @@ theorem groupTokens'_listInv {ph : Ph} {ks : List Node} {cls : Cls} {a b : Nat} 
     refine listInv_splice hi _ _ ?_
     rw [nodeInv_grp]
     exact ⟨kidsInv_of_not_six (delimTables_none_of_plain hp), hasNW_append_left _ hk.2.1,
-      listInv_append.2 ⟨hk.2.2, listInv_pySlice hi _ _⟩⟩
+      fun hc => ilOK_append_left _ (hk.2.2.1 hc), listInv_append.2 ⟨hk.2.2.2, listInv_pySlice hi _ _⟩⟩
   · refine listInv_splice hi _ _ ?_
     rw [nodeInv_grp]
     obtain ⟨j, x, h1, h2, hx, hxw⟩ := hw
-    exact ⟨kidsInv_of_not_six (delimTables_none_of_plain hp),
-      hasNW_of_mem (mem_pySlice_of_idx h1 (by omega) hx) hxw, listInv_pySlice hi _ _⟩
+    refine ⟨kidsInv_of_not_six (delimTables_none_of_plain hp),
+      hasNW_of_mem (mem_pySlice_of_idx h1 (by omega) hx) hxw, ?_, listInv_pySlice hi _ _⟩
+    intro hc
+    obtain ⟨j2, x2, h3, h4, hx2, hxw2, hxc2⟩ := hil hc
+    exact ilOK_of_mem (mem_pySlice_of_idx h3 (by omega) hx2) hxw2 hxc2
 
 /-! ### whitespace and `Comment` groups appended after the closer (`align_comments`) -/
 theorem frame_append_trailing {ph : Ph} (hph : ph.strict = false) {c : Cls} {mo mc : List MPat} {ks extra : List Node}
@@ -116,7 +128,8 @@ theorem groupTokens'_listInv_align {ph : Ph} (hph : ph.strict = false) {ks : Lis
     rw [nodeInv_grp] at hk
     refine listInv_splice hi _ _ ?_
     rw [nodeInv_grp]
-    refine ⟨?_, hasNW_append_left _ hk.2.1, listInv_append.2 ⟨hk.2.2, listInv_pySlice hi _ _⟩⟩
+    refine ⟨?_, hasNW_append_left _ hk.2.1, fun hc => ilOK_append_left _ (hk.2.2.1 hc),
+      listInv_append.2 ⟨hk.2.2.2, listInv_pySlice hi _ _⟩⟩
     intro mo mc ht
     exact frame_append_trailing hph (hk.1 mo mc ht) htr
   · rcases hno with h1 | h1
@@ -135,7 +148,7 @@ theorem Ops.listInv {al : Bool} {S ks ks' : List Node} (h : Ops al S ks ks') {ph
   induction h with
   | refl ks => exact id
   | trans _ _ ih1 ih2 => exact fun hi => ih2 (ih1 hi)
-  | group _ hg _ _ hp hw => exact groupTokens'_listInv hg hp hw
+  | group _ hg _ _ hp hw hil => exact groupTokens'_listInv hg hp hw hil
   | align hal' _ hg _ _ hst htr => exact groupTokens'_listInv_align (hal hal') hg hst htr
   | @retype F ks i x _ hx _ _ =>
     intro hi
